@@ -16,6 +16,13 @@ Theorem lifecycle_repair_present : gc_rem_pending_finalises = true /\ gc_sweep_n
 Proof. exact (conj eq_refl eq_refl). Qed.
 Print Assumptions lifecycle_repair_present.
 
+(* D22 repair present: an allocation made by a destructor inside a running sweep cannot start a
+   nested collection (which would reuse and free the one pending list).  With this, the sweeps of
+   the model — which never nest — are the sweeps of the code. *)
+Theorem lifecycle_no_nested_collection : gc_set_defers_in_sweep = true.
+Proof. exact eq_refl. Qed.
+Print Assumptions lifecycle_no_nested_collection.
+
 (* for every history — any interleaving of new/new_root/new_raw, del/del_root/del_raw, ownership
    links, forced and threshold collections with any slot order and any marks, stop/start, teardown
    — no destructor runs twice and memory is released exactly as often as the destructor ran *)
